@@ -16,7 +16,7 @@ are NOT decided by this family):
               when nothing is queued.
 """
 from pyvc.api import contract, T
-from pyvc.spec import implies, ghost_get, ghost_set, event_log, unbe, is_instance_of
+from pyvc.spec import implies, ghost_get, ghost_set, event_log, unbe, is_instance_of, any_bool
 import bromelia.base as B
 import bromelia.setup as S
 import bromelia.transport as TR
@@ -85,6 +85,15 @@ class _LoadAtCall:
     raises = (AVPParsingError, DiameterMessageError)
     proof = "table"
     requires = aligned
+
+    def interference(stream):
+        # decoding takes time: the transport's reader thread may deliver the next chunk meanwhile
+        ev = ghost_get("ev")
+        if ev is not None and len(ev.chunks) > 0 and any_bool("chunk-arrives-while-decoding"):
+            c = ev.chunks.pop(0)
+            ev.assoc.transport._recv_data_stream = ev.assoc.transport._recv_data_stream + c
+            ev.flag = True
+        return True
     assumes = ("DiameterMessage.load returns a list of messages or raises a library error (C03); which messages it "
                "returns for which bytes is C02's subject",)
 
@@ -112,7 +121,7 @@ def link_worker(self):
     total = b""
     for c in ev.chunks:
         total = total + c
-    return ghost_set("arrived", total) and ghost_set("chunks0", list(ev.chunks))
+    return ghost_set("arrived", total) and ghost_set("chunks0", list(ev.chunks)) and ghost_set("ev", ev)
 
 
 def decoded(log):
@@ -129,7 +138,7 @@ def _worker_contract(nchunks, whole):
     class _W:
         args = {"self": _worker_assoc(nchunks)}
         setup_spec = link_worker
-        bounded = "%d chunk(s) of 1..48 bytes arriving at iteration boundaries; decoder returns 0..2 messages" % nchunks
+        bounded = "%d chunk(s) of 1..48 bytes arriving at iteration boundaries or while the decoder runs; decoder returns 0..2 messages" % nchunks
         max_paths = 3000
         samples = 0          # the decoder is an assumed summary here: nothing to run natively without its outcomes
 
